@@ -27,7 +27,7 @@ ROOT = os.path.dirname(os.path.dirname(os.path.dirname(os.path.abspath(__file__)
 
 def sizes(ctx):
     if ctx.quick:
-        return dict(core=700, excon=260, nola=100, wide=50, flags=90, fusion=110, fuscirc=25, altsplice=150, circ=120)
+        return dict(core=700, excon=260, nola=100, wide=50, flags=90, fusion=110, fuscirc=25, altsplice=150, circ=90)
     return dict(core=17000, excon=6000, nola=1200, wide=800, flags=4000, fusion=4000, fuscirc=600, altsplice=4000, circ=3000)
 
 def gen_cases(ctx):
@@ -261,7 +261,14 @@ def altsplice_cases(ctx, n):
     rng = ctx.rng
     out = []
     for i in range(n):
-        c = CG2.gen_as_case(rng, donor_records=False, nvar=rng.choice([0, 1, 2, 2, 3, 3, 4] if ctx.quick else [0, 1, 2, 3, 3, 4, 5]))
+        # 55 % random events with donor segments free of small records; 45 % designed (round-3 seed C01-7): ONE <INS>/<SUB>
+        # with a frameshifting record strictly inside the donor segment + a record behind the event read in the shifted
+        # frame (+ sometimes one in front); a record straddling / abutting an end of the donor window
+        x = rng.random()
+        if x < 0.55:
+            c = CG2.gen_as_case(rng, donor_records=False, nvar=rng.choice([0, 1, 2, 2, 3, 3, 4] if ctx.quick else [0, 1, 2, 3, 3, 4, 5]))
+        else:
+            c = CG2.gen_as_design_case(rng, 'shift' if x < 0.82 else ('straddle' if x < 0.93 else 'abut'))
         c['runs'] = [dict(CG.gen_run(rng, rule='trypsin', exc_on=False), as_must=True)]
         c['stream'] = 'altsplice'
         out.append(c)
@@ -279,11 +286,15 @@ def circ_cases(ctx, n):
         nindel = len(set(r[2] for r in c['gvf'] if len(r[3]) != len(r[4])))
         return nindel >= 2 and any(sum(b - a for a, b in r['frags']) < 60 for r in c['circ_records'])
     for i in range(n):
-        c = CG2.gen_circ_case(rng)
+        # 1/2 random circles; 1/2 designed (round-3 seeds C05-6, C02-7): SNVs on the bases of start codons incl. the only
+        # ATG, start codon directly behind a cleavage site, two alleles at one site, ORFs passing the site in every turn
+        x = rng.random()
+        gen = (lambda: CG2.gen_circ_case(rng)) if x < 0.5 else (lambda: CG2.gen_circ_design_case(rng, 'starts' if x < 0.7 else 'onlyatg'))
+        c = gen()
         for _ in range(5):
             if not heavy(c):
                 break
-            c = CG2.gen_circ_case(rng)
+            c = gen()
         c['runs'] = [dict(CG.gen_run(rng, rule='trypsin', exc_on=False), circ_must=True)]
         c['stream'] = 'circ'
         out.append(c)
